@@ -6,6 +6,7 @@ Unsupported constructs raise AnalysisError (=> exit 2, fail closed)."""
 from __future__ import annotations
 
 import ast
+import collections
 import itertools
 import pathlib
 import sys
@@ -239,8 +240,8 @@ class ASet:
 
 class Native:
     """Whitelisted pure stdlib object (compiled regex / match): constant folding of pure primitives."""
-    ALLOWED = {"Pattern": ("search", "match", "fullmatch", "sub", "split", "findall", "pattern"),
-               "Match": ("groups", "group", "groupdict", "start", "end", "span")}
+    ALLOWED = {"Pattern": ("search", "match", "fullmatch", "sub", "split", "findall", "pattern", "flags", "groups", "groupindex"),
+               "Match": ("groups", "group", "groupdict", "start", "end", "span", "string", "lastindex", "lastgroup", "re", "pos", "endpos")}
 
     def __init__(self, obj):
         self.obj = obj
@@ -263,8 +264,10 @@ def _native_re():
         return Native(_re.compile(p, flags))
 
     def sub(p, repl, s, count=0, flags=0):
-        if not all(isinstance(x, str) for x in (p, repl, s)):
+        if not all(isinstance(x, str) for x in (p, s)) or not (isinstance(repl, str) or callable(repl)):
             raise AnalysisError("re.sub on non-text")
+        if not isinstance(repl, str):
+            return _re.sub(p, lambda mm: repl(Native(mm)), s, count, flags)
         return _re.sub(p, repl, s, count, flags)
 
     def mk(name):
@@ -274,8 +277,17 @@ def _native_re():
             return wrap(getattr(_re, name)(p, s, flags))
         return f
     d = {"compile": compile_, "sub": sub, "VERBOSE": _re.VERBOSE, "IGNORECASE": _re.IGNORECASE, "X": _re.X, "I": _re.I}
-    for n in ("match", "search", "fullmatch"):
+    for n in ("match", "search", "fullmatch", "findall", "split"):
         d[n] = mk(n)
+
+    def finditer(p, s, flags=0):
+        if not isinstance(p, str) or not isinstance(s, str):
+            raise AnalysisError("re.finditer on non-text")
+        return AIter(iter([Native(x) for x in _re.finditer(p, s, flags)]))
+    d["finditer"] = finditer
+    d["escape"] = _re.escape
+    for n in ("M", "MULTILINE", "S", "DOTALL", "A", "ASCII"):
+        d[n] = getattr(_re, n)
     return d, wrap
 
 
@@ -287,6 +299,31 @@ def _live(lst):
         i += 1
 
 
+class _Suppress:
+    """contextlib.suppress(*excs)"""
+    def __init__(self, excs):
+        self.excs = excs
+
+
+class _Partial:
+    """functools.partial"""
+    def __init__(self, f, args, kwargs):
+        self.f, self.args, self.kwargs = f, list(args), dict(kwargs)
+
+
+def _is_generator(node):
+    """does this function body contain a yield of its own (not inside a nested def / lambda)?"""
+    stack = list(node.body) if not isinstance(node, ast.Lambda) else []
+    while stack:
+        n = stack.pop()
+        if isinstance(n, (ast.Yield, ast.YieldFrom)):
+            return True
+        if isinstance(n, (ast.FunctionDef, ast.AsyncFunctionDef, ast.Lambda, ast.ClassDef)):
+            continue
+        stack.extend(ast.iter_child_nodes(n))
+    return False
+
+
 class Module:
     def __init__(self, name, path):
         self.name = name
@@ -296,12 +333,14 @@ class Module:
 
 
 class Env:
-    __slots__ = ("vars", "parent", "is_comp")
+    __slots__ = ("vars", "parent", "is_comp", "nl", "gl")
 
     def __init__(self, parent=None):
         self.vars = {}
         self.parent = parent
         self.is_comp = False
+        self.nl = None      # names declared nonlocal in this frame
+        self.gl = None      # names declared global in this frame
 
     def get(self, name):
         e = self
@@ -387,11 +426,13 @@ class Interp:
                 self.exec_top(st, m)
         return m
 
-    def ext_module(self, name):
+    def ext_module(self, name, lazy=False):
         if self._stubs is None:
             self._stubs = self._make_stubs()
         if name in self._stubs:
             return self._stubs[name]
+        if lazy:
+            return {}
         raise AnalysisError(f"no stub for external module {name}")
 
     def _make_stubs(self):
@@ -401,24 +442,38 @@ class Interp:
                        "TypeVar": lambda *a, **k: External("TypeVar"), "Union": External("Union"),
                        "Sequence": External("Sequence"), "Callable": External("Callable"),
                        "AbstractSet": External("AbstractSet"), "Iterable": External("Iterable"),
-                       "Iterator": External("Iterator"), "Set": External("Set"), "Literal": External("Literal")},
+                       "Iterator": External("Iterator"), "Set": External("Set"), "Literal": External("Literal"), "NamedTuple": External("NamedTuple")},
             "abc": {"ABCMeta": External("ABCMeta"), "abstractmethod": ("deco", "abstractmethod"),
                     "ABC": External("ABC")},
             "dataclasses": {"dataclass": ("deco", "dataclass"), "field": ("builtin", "field"),
                             "replace": ("builtin", "dc_replace")},
-            "functools": {"cached_property": ("deco", "cached_property"), "lru_cache": ("deco", "lru_cache"),
-                          "reduce": ("builtin", "reduce")},
+            "functools": {"cached_property": ("deco", "cached_property"), "lru_cache": ("deco", "lru_cache"), "cache": ("deco", "lru_cache"),
+                          "reduce": ("builtin", "reduce"), "partial": ("builtin", "partial"), "wraps": ("builtin", "wraps")},
+            "collections": {"defaultdict": ("builtin", "defaultdict"), "deque": ("builtin", "deque"), "OrderedDict": ("builtin", "dict")},
+            "collections.abc": {k: External(k) for k in ("Set", "Iterable", "Iterator", "Sequence", "Mapping", "MutableMapping", "Hashable",
+                                                         "Callable", "Collection", "Sized", "Container", "MutableSet", "Generator")},
+            "contextlib": {"suppress": ("builtin", "suppress")},
+            "copy": {"copy": ("builtin", "copy")},
+            "warnings": {"warn": ("builtin", "noop")},
+            "math": {"inf": float("inf"), "floor": __import__("math").floor, "ceil": __import__("math").ceil},
+            "string": {k: getattr(__import__("string"), k) for k in ("digits", "ascii_letters", "ascii_lowercase", "ascii_uppercase", "hexdigits", "punctuation", "whitespace")},
             "itertools": {"product": ("builtin", "product"), "takewhile": ("builtin", "takewhile"), "permutations": ("builtin", "permutations"),
                           "combinations": ("builtin", "combinations"), "chain": ("builtin", "chain"), "islice": ("builtin", "islice"),
-                          "zip_longest": ("builtin", "zip_longest"), "dropwhile": ("builtin", "dropwhile")},
+                          "zip_longest": ("builtin", "zip_longest"), "dropwhile": ("builtin", "dropwhile"), "groupby": ("builtin", "groupby"),
+                          "accumulate": ("builtin", "accumulate"), "repeat": ("builtin", "repeat"), "starmap": ("builtin", "starmap"),
+                          "pairwise": ("builtin", "pairwise"), "filterfalse": ("builtin", "filterfalse"), "compress": ("builtin", "compress")},
             "operator": {"and_": ("builtin", "and_"), "or_": ("builtin", "or_"), "eq": ("builtin", "op_eq"),
                          "ne": ("builtin", "op_ne"), "lt": ("builtin", "op_lt"), "le": ("builtin", "op_le"),
-                         "gt": ("builtin", "op_gt"), "ge": ("builtin", "op_ge")},
-            "sys": {"version_info": (3, 12, 1)},
+                         "gt": ("builtin", "op_gt"), "ge": ("builtin", "op_ge"), "itemgetter": ("builtin", "itemgetter"),
+                         "attrgetter": ("builtin", "attrgetter"), "methodcaller": ("builtin", "methodcaller"), "getitem": ("builtin", "op_getitem"),
+                         "add": ("builtin", "op_add"), "sub": ("builtin", "op_sub"), "mul": ("builtin", "op_mul"), "xor": ("builtin", "op_xor"),
+                         "not_": ("builtin", "op_not"), "truth": ("builtin", "op_truth"), "contains": ("builtin", "op_contains"),
+                         "is_": ("builtin", "op_is"), "is_not": ("builtin", "op_is_not")},
+            "sys": {"version_info": (3, 12, 1), "maxsize": sys.maxsize},
             "enum": {"Enum": External("Enum"), "IntEnum": External("IntEnum"), "auto": External("auto")},
             "platform": {"python_implementation": External("python_implementation")},
             "struct": {}, "sysconfig": {},
-            "re": _native_re()[0],
+            "re": dict(_native_re()[0], sub=self._re_sub),
             "packaging.markers": {"default_environment": External("default_environment"),
                                   "InvalidMarker": EXC["ValueError"], "Marker": External("Marker")},
             "packaging.version": {"Version": External("Version"), "InvalidVersion": EXC["InvalidVersion"]},
@@ -438,7 +493,8 @@ class Interp:
             m.ns[st.name] = self.make_class(st, m, m.env)
         elif isinstance(st, ast.FunctionDef):
             m.ns[st.name] = self.make_func(st, m, m.env, None)
-        elif isinstance(st, (ast.Assign, ast.AnnAssign, ast.If, ast.Expr, ast.Delete)):
+        elif isinstance(st, (ast.Assign, ast.AnnAssign, ast.If, ast.Expr, ast.Delete, ast.Try, ast.For, ast.While, ast.With,
+                             ast.AugAssign, ast.Assert, ast.Pass)):
             if isinstance(st, ast.Expr):
                 return  # docstrings / side-effect calls at import are ignored in the prototype
             if isinstance(st, ast.Delete):
@@ -447,6 +503,9 @@ class Interp:
                 self.exec_stmt(st, m.env, m)
             except AnalysisError:
                 pass  # unneeded module constants may be un-evaluable; they fail when used
+            except PyRaise:
+                if not isinstance(st, (ast.Try, ast.For, ast.While, ast.With, ast.AugAssign, ast.Assert)):
+                    raise
         else:
             raise AnalysisError(f"top-level {type(st).__name__} in {m.name}")
 
@@ -464,7 +523,7 @@ class Interp:
             for a in st.names:
                 ns[a.asname or a.name] = ("lazy", modname, a.name)
         else:
-            stub = self.ext_module(modname) if modname not in ("typing",) or True else None
+            stub = self.ext_module(modname, lazy=True)
             for a in st.names:
                 if a.name not in stub:
                     ns[a.asname or a.name] = External(f"{modname}.{a.name}")
@@ -509,6 +568,7 @@ class Interp:
         f = Func(node, m, env, owner, kind)
         f.unknown_deco = unknown
         f.memo = {} if memo else None
+        f.is_gen = _is_generator(node)
         return f
 
     def make_class(self, node, m, env):
@@ -518,6 +578,7 @@ class Interp:
             bv = self.resolve(bv)
             bases.append(bv)
         dc = None
+        total = False
         for d in node.decorator_list:
             u = ast.unparse(d)
             if "dataclass" in u:
@@ -528,9 +589,16 @@ class Interp:
                             dc.update(self.eval(kw.value, env, m))
                         else:
                             dc[kw.arg] = self.eval(kw.value, env, m)
+            elif u.split("(")[0].split(".")[-1] == "total_ordering":
+                total = True
+            elif u.split("(")[0].split(".")[-1] in ("final", "runtime_checkable"):
+                pass
             else:
                 raise AnalysisError(f"class decorator {u}")
+        if any(isinstance(b, External) and b.name == "NamedTuple" for b in bases):
+            dc = {"eq": True, "frozen": True, "init": True, "order": True, "namedtuple": True}
         ci = ClassInfo(node.name, m, node, bases, {}, dc)
+        ci.total_ordering = total
         ci.is_enum = any((isinstance(b, External) and b.name.endswith("Enum")) or getattr(b, "is_enum", False) for b in bases)
         ci.members = []
         cenv = Env(env)
@@ -545,13 +613,20 @@ class Interp:
                     if st.value is not None:
                         ci.ns[name] = ("classvar_lazy", st.value, cenv)
                     continue
-                default, compare, hash_, init = MISSING, True, None, True
+                default, compare, hash_, init, repr_ = MISSING, True, None, True, True
                 if st.value is not None:
-                    if isinstance(st.value, ast.Call) and ast.unparse(st.value.func) == "field":
+                    if isinstance(st.value, ast.Call) and ast.unparse(st.value.func) in ("field", "dataclasses.field"):
                         for kw in st.value.keywords:
+                            if kw.arg == "default_factory":
+                                default = ast.Call(func=kw.value, args=[], keywords=[])
+                                ast.copy_location(default, kw.value)
+                                ast.fix_missing_locations(default)
+                                continue
                             val = self.eval(kw.value, env, m)
                             if kw.arg == "default":
                                 default = st.value.keywords[[k.arg for k in st.value.keywords].index("default")].value
+                            elif kw.arg == "repr":
+                                repr_ = val
                             elif kw.arg == "compare":
                                 compare = val
                             elif kw.arg == "hash":
@@ -560,7 +635,7 @@ class Interp:
                                 init = val
                     else:
                         default = st.value
-                ci.fields.append((name, default, compare, hash_, init))
+                ci.fields.append((name, default, compare, hash_, init, repr_))
             elif isinstance(st, ast.Assign):
                 val_node = st.value
                 for t in st.targets:
@@ -652,6 +727,7 @@ class Interp:
             return
         if t is ast.While:
             n = 0
+            broke = False
             while self.truth(self.eval(st.test, env, m)):
                 n += 1
                 if n > 10000:
@@ -659,9 +735,12 @@ class Interp:
                 try:
                     self.exec_block(st.body, env, m)
                 except _Break:
+                    broke = True
                     break
                 except _Continue:
                     continue
+            if not broke:
+                self.exec_block(st.orelse, env, m)
             return
         if t is ast.Break:
             raise _Break()
@@ -671,6 +750,12 @@ class Interp:
             return
         if t is ast.Raise:
             exc = self.eval_exc(st.exc, env, m)
+            if st.cause is not None:
+                cause = self.eval(st.cause, env, m)
+                if isinstance(exc, AObj):
+                    exc.f["__cause__"] = cause
+                elif isinstance(exc, BuiltinExcValue):
+                    exc.cause = cause
             raise PyRaise(exc)
         if t is ast.Try:
             try:
@@ -682,7 +767,13 @@ class Interp:
                             if h.name:
                                 env.vars[h.name] = pr.exc
                             self.trace.append((self.fstack[-1] if self.fstack else m.name, h.lineno, "except"))
-                            self.exec_block(h.body, env, m)
+                            if not hasattr(self, "_cur_exc"):
+                                self._cur_exc = []
+                            self._cur_exc.append(pr.exc)
+                            try:
+                                self.exec_block(h.body, env, m)
+                            finally:
+                                self._cur_exc.pop()
                             break
                     else:
                         raise
@@ -692,15 +783,36 @@ class Interp:
                 if st.finalbody:
                     self.exec_block(st.finalbody, env, m)
             return
-        if t is ast.Global or t is ast.Nonlocal:
-            raise AnalysisError(f"{t.__name__} statement at {m.name}:{st.lineno}")
+        if t is ast.Nonlocal:
+            env.nl = (env.nl or set()) | set(st.names)
+            return
+        if t is ast.Global:
+            env.gl = (env.gl or set()) | set(st.names)
+            return
+        if t is ast.FunctionDef:
+            env.vars[st.name] = self.make_func(st, m, env, None)
+            return
+        if t is ast.ClassDef:
+            env.vars[st.name] = self.make_class(st, m, env)
+            return
+        if t is ast.With:
+            self.exec_with(st, 0, env, m)
+            return
         if t is ast.Delete:
             for tg in st.targets:
                 if isinstance(tg, ast.Name):
                     env.vars.pop(tg.id, None)
                 elif isinstance(tg, ast.Subscript):
                     obj = self.eval(tg.value, env, m)
-                    del obj[self.eval(tg.slice, env, m)]
+                    ix = self.eval(tg.slice, env, m)
+                    if isinstance(obj, dict):
+                        ix = self.dkey(obj, ix)
+                    try:
+                        del obj[ix]
+                    except KeyError:
+                        raise PyRaise(BuiltinExcValue(EXC["KeyError"], (ix,)))
+                    except IndexError:
+                        raise PyRaise(BuiltinExcValue(EXC["IndexError"], ()))
                 else:
                     raise AnalysisError("del target")
             return
@@ -717,9 +829,48 @@ class Interp:
             return
         raise AnalysisError(f"unsupported statement {t.__name__} at {m.name}:{st.lineno}")
 
+    def exec_with(self, st, i, env, m):
+        if i == len(st.items):
+            self.exec_block(st.body, env, m)
+            return
+        item = st.items[i]
+        cm = self.eval(item.context_expr, env, m)
+        if isinstance(cm, _Suppress):
+            try:
+                if item.optional_vars is not None:
+                    self.assign(item.optional_vars, None, env, m)
+                self.exec_with(st, i + 1, env, m)
+            except PyRaise as pr:
+                if not any(self.exc_match(pr.exc, self.resolve(h)) for h in cm.excs):
+                    raise
+            return
+        if not isinstance(cm, AObj):
+            raise AnalysisError(f"with-statement over unmodelled context manager {cm!r} at {m.name}:{st.lineno}")
+        en, _ = cm.cls.lookup("__enter__")
+        ex, _ = cm.cls.lookup("__exit__")
+        if en is MISSING or ex is MISSING:
+            raise PyRaise(BuiltinExcValue(EXC["TypeError"], ("context manager protocol", cm.cls.name)))
+        v = self.call(Bound(en, cm), [], {})
+        if item.optional_vars is not None:
+            self.assign(item.optional_vars, v, env, m)
+        try:
+            self.exec_with(st, i + 1, env, m)
+        except PyRaise as pr:
+            cls = pr.exc.cls if isinstance(pr.exc, (AObj, BuiltinExcValue)) else None
+            if not self.truth(self.call(Bound(ex, cm), [cls, pr.exc, None], {})):
+                raise
+            return
+        except (_Return, _Break, _Continue):
+            self.call(Bound(ex, cm), [None, None, None], {})
+            raise
+        self.call(Bound(ex, cm), [None, None, None], {})
+
     def eval_exc(self, node, env, m):
         if node is None:
-            raise AnalysisError("bare raise")
+            cur = getattr(self, "_cur_exc", None)
+            if not cur:
+                return BuiltinExcValue(EXC["RuntimeError"], ("No active exception to reraise",))
+            return cur[-1]
         try:
             v = self.resolve(self.eval(node, env, m))
         except AnalysisError as e:
@@ -753,6 +904,17 @@ class Interp:
 
     def assign(self, tg, v, env, m):
         if isinstance(tg, ast.Name):
+            if env.gl and tg.id in env.gl:
+                m.ns[tg.id] = v
+                return
+            if env.nl and tg.id in env.nl:
+                e = env.parent
+                while e is not None:
+                    if tg.id in e.vars and e.vars is not m.ns:
+                        e.vars[tg.id] = v
+                        return
+                    e = e.parent
+                raise AnalysisError(f"nonlocal {tg.id} not found")
             env.vars[tg.id] = v
         elif isinstance(tg, (ast.Tuple, ast.List)):
             vals = list(self.iterate(v))
@@ -778,11 +940,21 @@ class Interp:
                 if obj.cls.dc and obj.cls.dc.get("frozen"):
                     raise PyRaise(BuiltinExcValue(EXC["AttributeError"], ("frozen",)))
                 obj.f[tg.attr] = v
+            elif isinstance(self.resolve(obj), ClassInfo):
+                self.resolve(obj).ns[tg.attr] = v
             else:
                 raise AnalysisError("attribute store on non-object")
         elif isinstance(tg, ast.Subscript):
             obj = self.eval(tg.value, env, m)
             idx = self.eval(tg.slice, env, m)
+            if isinstance(obj, dict):
+                idx = self.dkey(obj, idx)
+            elif isinstance(obj, AObj):
+                r, _ = obj.cls.lookup("__setitem__")
+                if r is MISSING:
+                    raise PyRaise(BuiltinExcValue(EXC["TypeError"], ("item assignment", obj.cls.name)))
+                self.call(Bound(r, obj), [idx, v], {})
+                return
             obj[idx] = v
         else:
             raise AnalysisError(f"assign target {type(tg).__name__}")
@@ -820,8 +992,10 @@ class Interp:
     def iterate(self, v):
         if isinstance(v, ASet):
             return list(v.items)
-        if isinstance(v, (list, tuple, AIter, range, set, frozenset, dict, str)):
+        if isinstance(v, (list, tuple, AIter, range, set, frozenset, dict, str, collections.deque)):
             return v if isinstance(v, AIter) else list(v)
+        if self._is_nt(v) and v.cls.lookup("__iter__")[0] is MISSING:
+            return self._nt_values(v)
         if isinstance(v, AObj):
             r, _ = v.cls.lookup("__iter__")
             if r is MISSING:
@@ -877,6 +1051,12 @@ class Interp:
             if cv is MISSING:
                 if attr == "_hash" and self.is_absset(obj):
                     return lambda: ("set", frozenset(self.py_hash(v) for v in self.iterate(obj)))
+                if attr == "_replace" and self._is_nt(obj):
+                    return lambda **kw: self.b_dc_replace(obj, **kw)
+                if attr == "_asdict" and self._is_nt(obj):
+                    return lambda: {f[0]: obj.f[f[0]] for f in obj.cls.all_fields()}
+                if attr == "isdisjoint" and self.is_absset(obj):
+                    return lambda other: not any(self.contains(obj, v) for v in self.iterate(other))
                 if attr == "__class__":
                     return obj.cls
                 raise PyRaise(BuiltinExcValue(EXC["AttributeError"], (attr,)))
@@ -893,9 +1073,12 @@ class Interp:
                 return cv
             return self.classvar(cv, obj, attr, owner)
         if isinstance(obj, tuple) and obj and obj[0] == "extmod":
-            stub = self.ext_module(obj[1])
+            stub = self.ext_module(obj[1], lazy=True)
             if attr not in stub:
-                raise AnalysisError(f"{obj[1]}.{attr} not stubbed")
+                sub = obj[1] + "." + attr
+                if self._stubs is not None and any(k == sub or k.startswith(sub + ".") for k in self._stubs):
+                    return ("extmod", sub)
+                return External(f"{obj[1]}.{attr}")
             return stub[attr]
         if isinstance(obj, tuple) and obj and obj[0] == "module":
             return self.resolve(obj[1].ns[attr])
@@ -943,10 +1126,35 @@ class Interp:
             if not hasattr(obj, "sym_" + attr):
                 raise AnalysisError(f"attribute .{attr} not whitelisted on symbolic {obj!r}")
             return getattr(obj, "sym_" + attr)
-        if isinstance(obj, (str, list, tuple, dict, set, frozenset, ASet)):
+        if isinstance(obj, tuple) and len(obj) == 2 and obj[0] == "builtin" and attr in ("__name__", "__qualname__"):
+            return obj[1]
+        if isinstance(obj, tuple) and obj == ("builtin", "chain") and attr == "from_iterable":
+            return ("builtin", "chain_from_iterable")
+        if isinstance(obj, tuple) and obj == ("builtin", "dict") and attr == "fromkeys":
+            def _fromkeys(keys, value=None):
+                d = {}
+                for k in self.iterate(keys):
+                    kk = self.dkey(d, k)
+                    if kk not in d:
+                        d[kk] = value
+                return d
+            return _fromkeys
+        if isinstance(obj, (str, list, tuple, dict, set, frozenset, ASet, collections.deque)):
             return ("pymethod", obj, attr)
         if obj is self.builtins["object"] and attr == "__setattr__":
             return ("builtin", "object_setattr")
+        if obj is None or isinstance(obj, (bool, int, float)):
+            if hasattr(obj, attr):
+                v = getattr(obj, attr)
+                if not callable(v):
+                    return v
+                return v
+            raise PyRaise(BuiltinExcValue(EXC["AttributeError"], (f"'{type(obj).__name__}' object has no attribute '{attr}'",)))
+        if isinstance(obj, BuiltinExcValue):
+            if attr == "args":
+                return tuple(obj.args)
+            if attr in ("__cause__", "__context__"):
+                return getattr(obj, "cause", None)
         raise AnalysisError(f"getattr {type(obj).__name__}.{attr}")
 
     def classvar(self, cv, cls, attr, owner):
@@ -991,15 +1199,26 @@ class Interp:
                     raise PyRaise(BuiltinExcValue(EXC["TypeError"], ("~",)))
                 return self.call(Bound(r, v), [], {})
             return ~v
-        if isinstance(n.op, ast.USub):
-            return -v
+        if isinstance(n.op, (ast.USub, ast.UAdd)):
+            if isinstance(v, AObj):
+                nm = "__neg__" if isinstance(n.op, ast.USub) else "__pos__"
+                r, _ = v.cls.lookup(nm)
+                if r is MISSING:
+                    raise PyRaise(BuiltinExcValue(EXC["TypeError"], ("unary",)))
+                return self.call(Bound(r, v), [], {})
+            if isinstance(v, (VTok, Sym)):
+                raise AnalysisError("unary arithmetic on opaque value")
+            return -v if isinstance(n.op, ast.USub) else +v
         raise AnalysisError("unary op")
 
     def e_BinOp(self, n, env, m):
         return self.binop(n.op, self.eval(n.left, env, m), self.eval(n.right, env, m))
 
     _OPN = {ast.BitAnd: ("__and__", "__rand__"), ast.BitOr: ("__or__", "__ror__"),
-            ast.Sub: ("__sub__", "__rsub__"), ast.Add: ("__add__", "__radd__")}
+            ast.Sub: ("__sub__", "__rsub__"), ast.Add: ("__add__", "__radd__"), ast.BitXor: ("__xor__", "__rxor__"),
+            ast.Mult: ("__mul__", "__rmul__"), ast.Mod: ("__mod__", "__rmod__"), ast.FloorDiv: ("__floordiv__", "__rfloordiv__"),
+            ast.Div: ("__truediv__", "__rtruediv__"), ast.MatMult: ("__matmul__", "__rmatmul__"), ast.Pow: ("__pow__", "__rpow__"),
+            ast.LShift: ("__lshift__", "__rlshift__"), ast.RShift: ("__rshift__", "__rrshift__")}
 
     def binop(self, op, a, b):
         if isinstance(a, Sym) or isinstance(b, Sym):
@@ -1058,10 +1277,20 @@ class Interp:
             return a % b
         if t is ast.FloorDiv:
             return a // b
+        if t is ast.Pow:
+            return a ** b
+        if t is ast.Div:
+            return a / b
+        if t is ast.BitXor:
+            return a ^ b
+        if t is ast.LShift:
+            return a << b
+        if t is ast.RShift:
+            return a >> b
         raise AnalysisError(f"binop {t.__name__}")
 
     def is_absset(self, x):
-        return isinstance(x, AObj) and any(isinstance(c, External) and c.name == "AbstractSet" for c in x.cls.mro)
+        return isinstance(x, AObj) and any(isinstance(c, External) and c.name in ("AbstractSet", "Set") for c in x.cls.mro)
 
     def set_mixin(self, fwd, a, b):
         """collections.abc.Set mixin methods (documented stdlib semantics), result via cls(iterable)."""
@@ -1076,6 +1305,8 @@ class Interp:
                 items = list(mine) + list(other)
             elif fwd == "__sub__":
                 items = [v for v in mine if not self.contains(b, v)]
+            elif fwd == "__xor__":
+                items = [v for v in mine if not self.contains(b, v)] + [v for v in other if not self.contains(a, v)]
             else:
                 return MISSING
             # collections.abc.Set builds results through the classmethod hook _from_iterable (default: cls(iterable))
@@ -1105,6 +1336,9 @@ class Interp:
                 return False
             xs, ys = list(self.iterate(a)), list(self.iterate(b))
             return len(xs) == len(ys) and all(self.contains(b, v) for v in xs)
+        if (self._is_nt(a) and (self._is_nt(b) or isinstance(b, tuple))) or (self._is_nt(b) and isinstance(a, tuple)):
+            if not (isinstance(a, AObj) and a.cls.lookup("__eq__")[0] is not MISSING):
+                return self.py_eq(tuple(self.iterate(a)), tuple(self.iterate(b)))
         if isinstance(a, AObj) or isinstance(b, AObj):
             for x, y in ((a, b), (b, a)):
                 if isinstance(x, AObj):
@@ -1127,6 +1361,22 @@ class Interp:
             return isinstance(a, VTok) and isinstance(b, VTok) and a.rank == b.rank
         return a == b
 
+    def _abstract_key(self, k):
+        return isinstance(k, (AObj, VTok, ASet)) or (isinstance(k, tuple) and any(self._abstract_key(x) for x in k))
+
+    def dkey(self, d, k):
+        """the key of dict d that equals k under the *interpreted* __eq__ (Python dicts of the interpreter hold abstract objects by
+        identity; dep_logic objects are value-like)"""
+        if not self._abstract_key(k):
+            return k
+        for e in d:
+            if e is k:
+                return k
+        for e in d:
+            if self._abstract_key(e) and self.py_eq(e, k):
+                return e
+        return k
+
     def contains(self, container, item):
         if isinstance(container, ASet):
             return container.has(item)
@@ -1140,8 +1390,18 @@ class Interp:
                 raise PyRaise(BuiltinExcValue(EXC["TypeError"], ("in str",)))
             return item in container
         if isinstance(container, dict):
-            return item in container
+            return self.dkey(container, item) in container
         return any(self.py_eq(item, x) for x in self.iterate(container))
+
+    def _same(self, a, b):
+        if a is b:
+            return True
+        a, b = self.resolve(a), self.resolve(b)
+        if a is b:
+            return True
+        if isinstance(a, tuple) and isinstance(b, tuple) and a and b and a[0] == b[0] == "builtin":
+            return a[1] == b[1]
+        return False
 
     def e_Compare(self, n, env, m):
         left = self.eval(n.left, env, m)
@@ -1149,9 +1409,9 @@ class Interp:
             right = self.eval(rn, env, m)
             t = type(op)
             if t is ast.Is:
-                r = left is right or (left is None and right is None)
+                r = self._same(left, right)
             elif t is ast.IsNot:
-                r = not (left is right)
+                r = not self._same(left, right)
             elif t is ast.Eq:
                 r = self.py_eq(left, right)
             elif t is ast.NotEq:
@@ -1166,6 +1426,12 @@ class Interp:
                 return False
             left = right
         return True
+
+    def _is_nt(self, x):
+        return isinstance(x, AObj) and x.cls.dc is not None and x.cls.dc.get("namedtuple", False)
+
+    def _nt_values(self, x):
+        return [x.f[f[0]] for f in x.cls.all_fields()]
 
     def order(self, t, a, b):
         if isinstance(a, Sym) or isinstance(b, Sym):
@@ -1189,19 +1455,69 @@ class Interp:
             a, b = a.rank, b.rank
         elif isinstance(a, VTok) or isinstance(b, VTok):
             raise AnalysisError("ordering token against non-token")
-        elif isinstance(a, AObj):
-            name = {ast.Lt: "__lt__", ast.Gt: "__gt__", ast.LtE: "__le__", ast.GtE: "__ge__"}[t]
-            r, _ = a.cls.lookup(name)
-            if r is MISSING:
-                raise AnalysisError(f"ordering on {a.cls.name}")
-            return self.truth(self.call(Bound(r, a), [b], {}))
-        if t is ast.Lt:
-            return a < b
-        if t is ast.Gt:
-            return a > b
-        if t is ast.LtE:
-            return a <= b
-        return a >= b
+        elif isinstance(a, AObj) or isinstance(b, AObj):
+            names = {ast.Lt: ("__lt__", "__gt__"), ast.Gt: ("__gt__", "__lt__"), ast.LtE: ("__le__", "__ge__"), ast.GtE: ("__ge__", "__le__")}[t]
+            for x, y, nm in ((a, b, names[0]), (b, a, names[1])):
+                if isinstance(x, AObj):
+                    r, _ = x.cls.lookup(nm)
+                    if r is not MISSING:
+                        res = self.call(Bound(r, x), [y], {})
+                        if res is not NotImplemented:
+                            return self.truth(res)
+            if self.is_absset(a) and (self.is_absset(b) or isinstance(b, (ASet, set, frozenset))) or \
+                    self.is_absset(b) and isinstance(a, (ASet, set, frozenset)):
+                # collections.abc.Set mixin: subset / superset comparisons through __contains__ / __len__
+                xs, ys = list(self.iterate(a)), list(self.iterate(b))
+                sub = all(self.contains(b, v) for v in xs)
+                sup = all(self.contains(a, v) for v in ys)
+                if t is ast.LtE:
+                    return len(xs) <= len(ys) and sub
+                if t is ast.GtE:
+                    return len(xs) >= len(ys) and sup
+                if t is ast.Lt:
+                    return len(xs) < len(ys) and sub
+                return len(xs) > len(ys) and sup
+            for x, y, flip in ((a, b, False), (b, a, True)):
+                if isinstance(x, AObj) and getattr(x.cls, "total_ordering", False):
+                    for root in ("__lt__", "__le__", "__gt__", "__ge__"):
+                        r, _ = x.cls.lookup(root)
+                        if r is MISSING:
+                            continue
+                        res = self.call(Bound(r, x), [y], {})
+                        if res is NotImplemented:
+                            break
+                        res = self.truth(res)
+                        eq = self.py_eq(x, y)
+                        lt = {"__lt__": res, "__le__": res and not eq, "__gt__": (not res) and not eq, "__ge__": not res}[root]   # x < y
+                        gt = (not lt) and not eq
+                        if flip:
+                            lt, gt = gt, lt
+                        return {ast.Lt: lt, ast.LtE: lt or eq, ast.Gt: gt, ast.GtE: gt or eq}[t]
+            if self._is_nt(a) and self._is_nt(b) or (self._is_nt(a) and isinstance(b, tuple)) or (self._is_nt(b) and isinstance(a, tuple)):
+                ka, kb = tuple(self.iterate(a)), tuple(self.iterate(b))
+                if self.py_eq(ka, kb):
+                    return t in (ast.LtE, ast.GtE)
+                lt = self._lt(ka, kb)
+                return lt if t in (ast.Lt, ast.LtE) else not lt
+            if isinstance(a, AObj) and isinstance(b, AObj) and a.cls is b.cls and a.cls.dc is not None and a.cls.dc.get("order"):
+                ka = tuple(a.f[f[0]] for f in a.cls.all_fields() if f[2])
+                kb = tuple(b.f[f[0]] for f in b.cls.all_fields() if f[2])
+                if self.py_eq(ka, kb):
+                    return t in (ast.LtE, ast.GtE)
+                lt = self._lt(ka, kb)
+                return lt if t in (ast.Lt, ast.LtE) else not lt
+            raise PyRaise(BuiltinExcValue(EXC["TypeError"], ("ordering not supported", getattr(getattr(a, "cls", None), "name", type(a).__name__),
+                                                              getattr(getattr(b, "cls", None), "name", type(b).__name__))))
+        try:
+            if t is ast.Lt:
+                return a < b
+            if t is ast.Gt:
+                return a > b
+            if t is ast.LtE:
+                return a <= b
+            return a >= b
+        except TypeError as e:
+            raise PyRaise(BuiltinExcValue(EXC["TypeError"], (str(e),)))
 
     def e_IfExp(self, n, env, m):
         c = self.truth(self.eval(n.test, env, m))
@@ -1244,9 +1560,11 @@ class Interp:
         d = {}
         for k, v in zip(n.keys, n.values):
             if k is None:
-                d.update(self.eval(v, env, m))
+                for kk, vv in self.eval(v, env, m).items():
+                    d[self.dkey(d, kk)] = vv
             else:
-                d[self.eval(k, env, m)] = self.eval(v, env, m)
+                kk = self.eval(k, env, m)
+                d[self.dkey(d, kk)] = self.eval(v, env, m)
         return d
 
     def e_Subscript(self, n, env, m):
@@ -1259,13 +1577,34 @@ class Interp:
             st = self.eval(n.slice.step, env, m) if n.slice.step else None
             return obj[lo:hi:st]
         idx = self.eval(n.slice, env, m)
+        if isinstance(obj, Native):
+            if hasattr(obj.obj, "group"):
+                try:
+                    return obj.obj[idx]
+                except IndexError:
+                    raise PyRaise(BuiltinExcValue(EXC["IndexError"], ("no such group",)))
+            raise AnalysisError("subscript on a compiled pattern")
+        if isinstance(obj, ClassInfo) and getattr(obj, "is_enum", False):
+            for mem in obj.members:
+                if mem.f.get("name") == idx:
+                    return mem
+            raise PyRaise(BuiltinExcValue(EXC["KeyError"], (idx,)))
+        if isinstance(obj, ClassInfo):
+            return obj      # generic alias C[T]
         if isinstance(obj, AObj):
             r, _ = obj.cls.lookup("__getitem__")
             if r is MISSING:
+                if self._is_nt(obj):
+                    try:
+                        return self._nt_values(obj)[idx]
+                    except IndexError:
+                        raise PyRaise(BuiltinExcValue(EXC["IndexError"], ()))
                 raise PyRaise(BuiltinExcValue(EXC["TypeError"], ("not subscriptable", obj.cls.name)))
             return self.call(Bound(r, obj), [idx], {})
         if isinstance(obj, (VTok, Sym)):
             raise AnalysisError(f"subscript on opaque value {obj!r}")
+        if isinstance(obj, dict):
+            idx = self.dkey(obj, idx)
         try:
             return obj[idx]
         except IndexError:
@@ -1307,12 +1646,32 @@ class Interp:
         out = {}
 
         def emit(e):
-            out[self.eval(n.key, e, m)] = self.eval(n.value, e, m)
+            kk = self.eval(n.key, e, m)
+            out[self.dkey(out, kk)] = self.eval(n.value, e, m)
         self._comp(n.generators, env, m, emit)
         return out
 
     def e_SetComp(self, n, env, m):
         return self.mkset(self.e_ListComp(n, env, m))
+
+    def e_Yield(self, n, env, m):
+        out = env.get("__yield__")
+        if out is MISSING:
+            raise AnalysisError("yield outside a modelled generator")
+        out.append(self.eval(n.value, env, m) if n.value is not None else None)
+        if len(out) > 100000:
+            raise AnalysisError("generator bound")
+        return None
+
+    def e_YieldFrom(self, n, env, m):
+        out = env.get("__yield__")
+        if out is MISSING:
+            raise AnalysisError("yield outside a modelled generator")
+        out.extend(self.iterate(self.eval(n.value, env, m)))
+        return None
+
+    def e_Starred(self, n, env, m):
+        raise AnalysisError("starred expression outside a call / display")
 
     def e_Lambda(self, n, env, m):
         return Func(n, m, env, None, "plain")
@@ -1324,20 +1683,78 @@ class Interp:
                 out.append(v.value)
             else:
                 val = self.eval(v.value, env, m)
+                spec = self.e_JoinedStr(v.format_spec, env, m) if v.format_spec is not None else ""
                 if v.conversion == 114:  # !r
-                    out.append(repr(val) if isinstance(val, (str, int, bool, type(None), tuple, list)) else "<" + self.to_str(val) + ">")
-                else:
+                    try:
+                        txt = self.to_repr(val)
+                    except AnalysisError:
+                        txt = "<" + self.to_str(val) + ">"
+                    txt = format(txt, spec) if spec else txt
+                elif v.conversion == 115:  # !s
                     txt = self.to_str(val)
-                    if v.format_spec is not None:
-                        spec = self.e_JoinedStr(v.format_spec, env, m)
-                        txt = format(val, spec) if isinstance(val, (int, float, str)) else txt
-                    out.append(txt)
+                    txt = format(txt, spec) if spec else txt
+                elif v.conversion == 97:  # !a
+                    txt = format(ascii(self.to_repr(val))[1:-1] if not isinstance(val, str) else ascii(val), spec)
+                else:
+                    if spec and isinstance(val, (int, float, str)) and not isinstance(val, bool):
+                        txt = format(val, spec)
+                    else:
+                        txt = self.to_str(val)
+                        txt = format(txt, spec) if spec else txt
+                out.append(txt)
         return "".join(out)
+
+    def _is_exc_obj(self, v):
+        return isinstance(v, AObj) and any(isinstance(c, External) and (c.name in EXC or c.name.endswith(("Error", "Exception", "Warning")))
+                                           for c in v.cls.mro)
+
+    def to_repr(self, v):
+        if isinstance(v, AObj):
+            r, _ = v.cls.lookup("__repr__")
+            if r is not MISSING:
+                return self.call(Bound(r, v), [], {})
+            if getattr(v.cls, "is_enum", False):
+                return f"<{v.cls.name}.{v.f.get('name')}: {self.to_repr(v.f.get('value'))}>"
+            if v.cls.dc is not None and v.cls.dc.get("repr", True):
+                parts = [f"{f[0]}={self.to_repr(v.f[f[0]])}" for f in v.cls.all_fields() if f[0] in v.f and (len(f) < 6 or f[5] is not False)]
+                return f"{v.cls.name}({', '.join(parts)})"
+            if self._is_exc_obj(v):
+                return f"{v.cls.name}({', '.join(self.to_repr(a) for a in v.f.get('args', ()))})"
+            raise AnalysisError(f"default object repr of {v.cls.name} (address-dependent)")
+        if isinstance(v, BuiltinExcValue):
+            return f"{v.cls.name}({', '.join(self.to_repr(a) for a in v.args)})"
+        if isinstance(v, list):
+            return "[" + ", ".join(self.to_repr(x) for x in v) + "]"
+        if isinstance(v, tuple) and not (v and v[0] in ("builtin", "lazy", "module", "extmod", "pymethod", "deco")):
+            return "(" + ", ".join(self.to_repr(x) for x in v) + ("," if len(v) == 1 else "") + ")"
+        if isinstance(v, dict):
+            return "{" + ", ".join(f"{self.to_repr(k)}: {self.to_repr(x)}" for k, x in v.items()) + "}"
+        if isinstance(v, ASet):
+            if any(isinstance(x, (AObj, VTok)) for x in v.items):
+                raise AnalysisError("repr of a set of abstract objects (iteration order is hash-dependent)")
+            return repr(set(v.items)) if v.items else "set()"
+        if isinstance(v, VTok):
+            if hasattr(v, "vrepr"):
+                return v.vrepr()
+            raise AnalysisError("repr() of version token")
+        if isinstance(v, (Native, Func, Bound, ClassInfo, External, Sym, AIter)):
+            raise AnalysisError(f"repr() of {type(v).__name__}")
+        return repr(v)
 
     def to_str(self, v):
         if isinstance(v, AObj):
             r, _ = v.cls.lookup("__str__")
+            if r is MISSING:
+                if self._is_exc_obj(v):
+                    a = v.f.get("args", ())
+                    return "" if not a else (self.to_str(a[0]) if len(a) == 1 else self.to_repr(tuple(a)))
+                return self.to_repr(v)
             return self.call(Bound(r, v), [], {})
+        if isinstance(v, BuiltinExcValue):
+            a = v.args
+            return "" if not a else (self.to_str(a[0]) if len(a) == 1 else self.to_repr(tuple(a)))
+        if isinstance(v, (list, tuple, dict, ASet)):
+            return self.to_repr(v)
         if isinstance(v, VTok):
             if hasattr(v, "vstr"):
                 return v.vstr()
@@ -1377,10 +1794,24 @@ class Interp:
             if n is not None and isinstance(o, AObj) and o.site is None:
                 o.site = (self.fstack[-1] if self.fstack else (m.name if m else "?"), n.lineno)
             return o
+        if isinstance(f, _Partial):
+            kw = dict(f.kwargs)
+            kw.update(kwargs)
+            return self.call(f.f, f.args + list(args), kw, n, m)
         if isinstance(f, tuple) and f and f[0] == "builtin":
-            return getattr(self, "b_" + f[1])(*args, **kwargs)
+            try:
+                return getattr(self, "b_" + f[1])(*args, **kwargs)
+            except TypeError as e:
+                if "b_" + f[1] in str(e) and ("argument" in str(e)):
+                    raise AnalysisError(f"builtin {f[1]} called with an unmodelled signature: {e}")
+                raise
         if isinstance(f, tuple) and f and f[0] == "pymethod":
             return self.pymethod(f[1], f[2], args, kwargs)
+        if isinstance(f, AObj):
+            r, _ = f.cls.lookup("__call__")
+            if r is MISSING:
+                raise PyRaise(BuiltinExcValue(EXC["TypeError"], ("not callable", f.cls.name)))
+            return self.call_func(r, [f] + list(args), kwargs)
         if isinstance(f, External):
             h = self.opaque_calls.get(f.name)
             if h is None and (f.name in EXC or f.name.endswith(("Error", "Exception", "Warning"))):
@@ -1458,13 +1889,21 @@ class Interp:
         if len(self.fstack) > 400:
             self.fstack.pop()
             raise AnalysisError(f"call depth exceeded in {func.qualname}")
+        gen = getattr(func, "is_gen", False)
+        if gen:
+            # generators are run eagerly to completion (pure code: laziness is unobservable); the yields are collected
+            env.vars["__yield__"] = out = []
         try:
             self.exec_block(node.body, env, func.module)
         except _Return as r:
             self.last_return = (func.module.name + ":" + func.qualname, r.lineno)
+            if gen:
+                return AIter(iter(out))
             return r.value
         finally:
             self.fstack.pop()
+        if gen:
+            return AIter(iter(out))
         return None
 
     def construct(self, cls, args, kwargs):
@@ -1552,9 +1991,24 @@ class Interp:
             if name == "join":
                 return obj.join(self.to_str(x) if not isinstance(x, str) else x for x in self.iterate(args[0]))
             return getattr(obj, name)(*args, **kwargs)
-        if isinstance(obj, dict) and name in ("get", "items", "keys", "values", "update"):
-            r = getattr(obj, name)(*args, **kwargs)
-            return list(r) if name in ("items", "keys", "values") else r
+        if isinstance(obj, dict):
+            if name in ("items", "keys", "values"):
+                return list(getattr(obj, name)())
+            if name in ("get", "pop", "setdefault") and args:
+                args = [self.dkey(obj, args[0])] + list(args[1:])
+                return getattr(obj, name)(*args)
+            if name == "update":
+                for src in args:
+                    for kk, vv in (src.items() if isinstance(src, dict) else [tuple(self.iterate(x)) for x in self.iterate(src)]):
+                        obj[self.dkey(obj, kk)] = vv
+                obj.update(kwargs)
+                return None
+            if name in ("copy", "clear", "popitem"):
+                return getattr(obj, name)()
+        if isinstance(obj, collections.deque) and name in ("append", "appendleft", "pop", "popleft", "extend", "extendleft", "clear", "rotate"):
+            if name in ("extend", "extendleft"):
+                return getattr(obj, name)(list(self.iterate(args[0])))
+            return getattr(obj, name)(*args)
         if isinstance(obj, (set, frozenset, ASet)):
             return self.setmethod(obj, name, args)
         raise AnalysisError(f"method {type(obj).__name__}.{name}")
@@ -1562,7 +2016,7 @@ class Interp:
     def setmethod(self, obj, name, args):
         a = obj if isinstance(obj, ASet) else ASet(self, obj)
         others = [x if isinstance(x, ASet) else ASet(self, self.iterate(x)) for x in args] if name not in (
-            "add", "discard", "remove") else []
+            "add", "discard", "remove", "update", "intersection_update", "difference_update", "symmetric_difference_update", "clear", "pop") else []
         if name == "issubset":
             return all(others[0].has(v) for v in a.items)
         if name == "issuperset":
@@ -1588,6 +2042,33 @@ class Interp:
                     raise AnalysisError("adding abstract object to concrete set")
                 obj.add(args[0])
             return None
+        if name in ("update", "intersection_update", "difference_update", "symmetric_difference_update"):
+            base = {"update": "union", "intersection_update": "intersection", "difference_update": "difference",
+                    "symmetric_difference_update": "symmetric_difference"}[name]
+            res = a
+            for x in args:
+                res = self.setmethod(res, base, [x])
+                res = res if isinstance(res, ASet) else ASet(self, res)
+            if isinstance(obj, ASet):
+                obj.items = list(res.items)
+            else:
+                if any(isinstance(v, (AObj, VTok)) for v in res.items):
+                    raise AnalysisError("adding abstract object to concrete set")
+                obj.clear()
+                obj.update(res.items)
+            return None
+        if name == "clear":
+            if isinstance(obj, ASet):
+                obj.items = []
+            else:
+                obj.clear()
+            return None
+        if name == "pop":
+            if isinstance(obj, ASet):
+                if not obj.items:
+                    raise PyRaise(BuiltinExcValue(EXC["KeyError"], ("pop from an empty set",)))
+                raise AnalysisError("set.pop() picks an arbitrary element")
+            raise AnalysisError("set.pop() picks an arbitrary element")
         if name in ("discard", "remove"):
             if isinstance(obj, ASet):
                 obj.items = [v for v in obj.items if not self.py_eq(v, args[0])]
@@ -1601,8 +2082,9 @@ class Interp:
         b = {k: ("builtin", k) for k in (
             "len", "isinstance", "tuple", "list", "iter", "zip", "enumerate", "any", "all", "map", "sorted",
             "max", "min", "sum", "str", "int", "range", "type", "set", "filter", "bool", "next", "hasattr",
-            "reversed", "repr", "hash", "frozenset", "dict", "abs", "getattr", "callable", "id", "divmod")}
-        b.update({"None": None, "True": True, "False": False, "NotImplemented": NotImplemented,
+            "reversed", "repr", "hash", "frozenset", "dict", "abs", "getattr", "callable", "id", "divmod",
+            "issubclass", "float", "chr", "ord", "round", "pow", "print", "format", "setattr", "slice", "bin", "hex", "oct", "ascii")}
+        b.update({"None": None, "True": True, "False": False, "NotImplemented": NotImplemented, "Ellipsis": Ellipsis, "__debug__": True,
                   "object": External("object"), "property": ("deco", "property")})
         b.update({k: v for k, v in EXC.items()})
         return b
@@ -1610,6 +2092,10 @@ class Interp:
     def b_len(self, x):
         if isinstance(x, AObj):
             r, _ = x.cls.lookup("__len__")
+            if r is MISSING:
+                if self._is_nt(x):
+                    return len(self._nt_values(x))
+                raise PyRaise(BuiltinExcValue(EXC["TypeError"], ("object has no len()", x.cls.name)))
             return self.call(Bound(r, x), [], {})
         if isinstance(x, AIter):
             raise PyRaise(BuiltinExcValue(EXC["TypeError"], ("len of iterator",)))
@@ -1775,10 +2261,12 @@ class Interp:
         return self.to_str(x)
 
     def b_repr(self, x):
-        return repr(x)
+        return self.to_repr(x)
 
     def b_dict(self, x=(), **kw):
-        d = dict(x) if isinstance(x, dict) else {k: v for k, v in self.iterate(x)}
+        d = {}
+        for k, v in (x.items() if isinstance(x, dict) else [tuple(self.iterate(p)) for p in self.iterate(x)]):
+            d[self.dkey(d, k)] = v
         d.update(kw)
         return d
 
@@ -1789,7 +2277,12 @@ class Interp:
         return divmod(a, b)
 
     def b_callable(self, x):
-        return isinstance(x, (Func, Bound, ClassInfo)) or callable(x)
+        x = self.resolve(x)
+        if isinstance(x, AObj):
+            return x.cls.lookup("__call__")[0] is not MISSING
+        if isinstance(x, tuple) and x and x[0] in ("builtin", "pymethod"):
+            return True
+        return isinstance(x, (Func, Bound, ClassInfo, _Partial)) or callable(x)
 
     def b_id(self, x):
         return id(x)
@@ -1802,9 +2295,10 @@ class Interp:
                 return default
             raise
 
-    def b_int(self, x=0):
+    def b_int(self, x=0, base=MISSING):
+        self._plain(x)
         try:
-            return int(x)
+            return int(x) if base is MISSING else int(x, base)
         except ValueError:
             raise PyRaise(BuiltinExcValue(EXC["ValueError"], ("int", x)))
 
@@ -1820,11 +2314,23 @@ class Interp:
     def b_type(self, x):
         if isinstance(x, AObj):
             return x.cls
+        for nm, py in (("bool", bool), ("int", int), ("str", str), ("tuple", tuple), ("list", list), ("dict", dict), ("float", float)):
+            if type(x) is py:
+                return ("builtin", nm)
+        if isinstance(x, (ASet, set)):
+            return ("builtin", "set")
+        if isinstance(x, frozenset):
+            return ("builtin", "frozenset")
         raise AnalysisError("type() of non-object")
 
     def b_hasattr(self, x, name):
         if isinstance(x, AObj):
             return name in x.f or x.cls.lookup(name)[0] is not MISSING
+        x = self.resolve(x)
+        if isinstance(x, ClassInfo):
+            return x.lookup(name)[0] is not MISSING
+        if isinstance(x, (str, int, bool, tuple, list, dict, float, type(None))):
+            return hasattr(x, name)
         raise AnalysisError("hasattr")
 
     def b_cast(self, t, v):
@@ -1902,6 +2408,221 @@ class Interp:
         kw = {f[0]: obj.f[f[0]] for f in obj.cls.all_fields() if f[4]}
         kw.update(changes)
         return self.construct(obj.cls, [], kw)
+
+    # ---- further builtins / stdlib helpers (pure; callbacks go through the interpreter)
+    def b_issubclass(self, c, d):
+        c, d = self.resolve(c), self.resolve(d)
+        if isinstance(d, tuple) and not (d and d[0] in ("builtin", "lazy")):
+            return any(self.b_issubclass(c, x) for x in d)
+        if isinstance(c, ClassInfo):
+            return d in c.mro or any(self._ext_sub(b, d) for b in c.mro if isinstance(b, External))
+        if isinstance(c, External) and isinstance(d, External):
+            return self._ext_sub(c, d)
+        if isinstance(c, tuple) and isinstance(d, tuple) and c[0] == d[0] == "builtin":
+            return c[1] == d[1] or (c[1], d[1]) == ("bool", "int")
+        raise AnalysisError(f"issubclass({c!r}, {d!r})")
+
+    def _plain(self, *xs):
+        if any(isinstance(x, (AObj, VTok, Sym, ASet)) for x in xs):
+            raise AnalysisError("numeric/text builtin applied to an abstract value")
+
+    def b_float(self, x=0.0):
+        self._plain(x)
+        return float(x)
+
+    def b_chr(self, x):
+        return chr(x)
+
+    def b_ord(self, x):
+        return ord(x)
+
+    def b_round(self, x, n=None):
+        self._plain(x)
+        return round(x, n) if n is not None else round(x)
+
+    def b_pow(self, *a):
+        self._plain(*a)
+        return pow(*a)
+
+    def b_print(self, *a, **k):
+        return None
+
+    def b_format(self, x, spec=""):
+        return format(self.to_str(x) if isinstance(x, (AObj, VTok)) else x, spec)
+
+    def b_setattr(self, obj, name, value):
+        if not isinstance(obj, AObj):
+            raise AnalysisError("setattr on non-object")
+        if obj.cls.dc and obj.cls.dc.get("frozen"):
+            raise PyRaise(BuiltinExcValue(EXC["AttributeError"], ("frozen",)))
+        obj.f[name] = value
+
+    def b_slice(self, *a):
+        return slice(*a)
+
+    def b_bin(self, x):
+        return bin(x)
+
+    def b_hex(self, x):
+        return hex(x)
+
+    def b_oct(self, x):
+        return oct(x)
+
+    def b_ascii(self, x):
+        self._plain(x)
+        return ascii(x)
+
+    def b_partial(self, f, *a, **k):
+        return _Partial(f, a, k)
+
+    def b_wraps(self, f, *a, **k):
+        return lambda g: g
+
+    def b_suppress(self, *excs):
+        return _Suppress(excs)
+
+    def b_itemgetter(self, *keys):
+        def get(o):
+            vals = [self.call(("builtin", "op_getitem"), [o, k], {}) for k in keys]
+            return vals[0] if len(vals) == 1 else tuple(vals)
+        return get
+
+    def b_attrgetter(self, *names):
+        def one(o, name):
+            for part in name.split("."):
+                o = self.getattr(o, part)
+            return o
+        def get(o):
+            vals = [one(o, n) for n in names]
+            return vals[0] if len(vals) == 1 else tuple(vals)
+        return get
+
+    def b_methodcaller(self, name, *a, **k):
+        return lambda o: self.call(self.getattr(o, name), list(a), dict(k))
+
+    def b_op_getitem(self, o, k):
+        if isinstance(o, AObj):
+            r, _ = o.cls.lookup("__getitem__")
+            if r is MISSING:
+                raise PyRaise(BuiltinExcValue(EXC["TypeError"], ("not subscriptable", o.cls.name)))
+            return self.call(Bound(r, o), [k], {})
+        if isinstance(o, dict):
+            k = self.dkey(o, k)
+        try:
+            return o[k]
+        except IndexError:
+            raise PyRaise(BuiltinExcValue(EXC["IndexError"], ()))
+        except KeyError:
+            raise PyRaise(BuiltinExcValue(EXC["KeyError"], (k,)))
+
+    def b_op_add(self, a, b):
+        return self.binop(ast.Add(), a, b)
+
+    def b_op_sub(self, a, b):
+        return self.binop(ast.Sub(), a, b)
+
+    def b_op_mul(self, a, b):
+        return self.binop(ast.Mult(), a, b)
+
+    def b_op_xor(self, a, b):
+        return self.binop(ast.BitXor(), a, b)
+
+    def b_op_not(self, a):
+        return not self.truth(a)
+
+    def b_op_truth(self, a):
+        return self.truth(a)
+
+    def b_op_contains(self, a, b):
+        return self.contains(a, b)
+
+    def b_op_is(self, a, b):
+        return a is b
+
+    def b_op_is_not(self, a, b):
+        return a is not b
+
+    def b_groupby(self, x, key=None):
+        out = []
+        for v in self.iterate(x):
+            k = self.call(key, [v], {}) if key is not None else v
+            if out and self.py_eq(out[-1][0], k):
+                out[-1][1].append(v)
+            else:
+                out.append((k, [v]))
+        return AIter((k, AIter(iter(g))) for k, g in out)
+
+    def b_accumulate(self, x, func=None, initial=MISSING):
+        out = []
+        acc = initial
+        for v in self.iterate(x):
+            if acc is MISSING:
+                acc = v
+            else:
+                acc = self.call(func, [acc, v], {}) if func is not None else self.binop(ast.Add(), acc, v)
+                if not out and initial is not MISSING:
+                    out.append(initial)
+            out.append(acc)
+        if initial is not MISSING and not out:
+            out.append(initial)
+        return AIter(iter(out))
+
+    def b_repeat(self, v, n=MISSING):
+        if n is MISSING:
+            raise AnalysisError("unbounded itertools.repeat")
+        return AIter(iter([v] * n))
+
+    def b_starmap(self, f, x):
+        return AIter(self.call(f, list(self.iterate(a)), {}) for a in self.iterate(x))
+
+    def b_pairwise(self, x):
+        items = list(self.iterate(x))
+        return AIter(iter(list(zip(items, items[1:]))))
+
+    def b_filterfalse(self, f, x):
+        if f is None:
+            return AIter(v for v in self.iterate(x) if not self.truth(v))
+        return AIter(v for v in self.iterate(x) if not self.truth(self.call(f, [v], {})))
+
+    def b_compress(self, x, sel):
+        return AIter(v for v, c in zip(self.iterate(x), self.iterate(sel)) if self.truth(c))
+
+    def b_chain_from_iterable(self, xs):
+        return AIter(v for x in self.iterate(xs) for v in self.iterate(x))
+
+    def b_defaultdict(self, factory=None, *a, **k):
+        d = collections.defaultdict((lambda: self.call(factory, [], {})) if factory is not None else None)
+        for kk, vv in self.b_dict(*a, **k).items():
+            d[kk] = vv
+        return d
+
+    def b_deque(self, x=(), maxlen=None):
+        return collections.deque(self.iterate(x), maxlen)
+
+    def b_copy(self, x):
+        if isinstance(x, AObj):
+            o = AObj(x.cls)
+            o.f = dict(x.f)
+            return o
+        if isinstance(x, ASet):
+            return self.mkset(x.items)
+        if isinstance(x, (list, dict, set)):
+            return x.copy()
+        return x
+
+    def _re_sub(self, p, repl, s, count=0, flags=0):
+        import re as _re
+        if isinstance(p, Native):
+            p = p.obj
+        if not (isinstance(p, (str, _re.Pattern)) and isinstance(s, str)):
+            raise AnalysisError("re.sub on non-text")
+        if isinstance(repl, str):
+            return _re.sub(p, repl, s, count, flags)
+        return _re.sub(p, lambda mm: self.call(repl, [Native(mm)], {}), s, count, flags)
+
+    def b_noop(self, *a, **k):
+        return None
 
     def b_field(self, **kw):
         raise AnalysisError("field() outside class body")
